@@ -752,6 +752,18 @@ TrEnd ==
   /\ l' = l + 1
   /\ UNCHANGED <<scen, cfg, msg, order, reads, ch, hi, pkt, rcvd, skipTo, ackCum, ackGap, arw, outst, lastSack, sackEv, sn, step, newData, misc, rs, acc>>
 
+\* the real-time watchdog of the driver certified (two identical stack samples, every goroutine of the
+\* simulation blocked, one of them on a lock) that the scenario cannot make progress any more: the real code
+\* is deadlocked (C09: nothing can be torn down any more; C20: no deadlocks). Terminates the scenario.
+TrDeadlock ==
+  /\ IsEv("deadlock")
+  /\ LET vs == viol \cup {V("C09_Deadlock", <<E.name, E.stacks>>)} IN
+       /\ PrintT(<<"VFSCEN", scen, Cardinality(vs), l>>)
+       /\ \A v \in vs : PrintT(<<"VFVIOL", ToJson(v)>>)
+       /\ viol' = {}
+  /\ l' = l + 1
+  /\ UNCHANGED <<scen, cfg, msg, order, reads, ch, hi, pkt, rcvd, skipTo, ackCum, ackGap, arw, outst, lastSack, sackEv, sn, step, newData, misc, rs, acc>>
+
 (***************************************************************************)
 (* Events that only open a step or carry information used by other specs   *)
 (***************************************************************************)
@@ -951,7 +963,7 @@ TrPassive ==
   /\ UNCHANGED <<scen, cfg, msg, order, reads, ch, hi, pkt, rcvd, skipTo, ackCum, ackGap, arw, outst, lastSack, sackEv, sn, newData, misc, rs, acc, viol>>
 
 Next == TrCfg \/ TrWCall \/ TrWrite \/ TrRead \/ TrTx \/ TrForge \/ TrChunkData \/ TrChunkSack \/ TrChunkFwd \/ TrChunkShutdown \/ TrChunkReconfig \/ TrChunkHb \/ TrChunkOther
-        \/ TrRx \/ TrSnap \/ TrSame \/ TrEnd \/ TrApi \/ TrCb \/ TrTick \/ TrExpect \/ TrDiff \/ TrHsFinal \/ TrHsSpecial \/ TrShutEnd \/ TrAdvEnd \/ TrCall \/ TrRet \/ TrInject \/ TrCrashObs \/ TrTxFail \/ TrStormEnd \/ TrPassive
+        \/ TrRx \/ TrSnap \/ TrSame \/ TrEnd \/ TrApi \/ TrCb \/ TrTick \/ TrExpect \/ TrDiff \/ TrHsFinal \/ TrHsSpecial \/ TrShutEnd \/ TrAdvEnd \/ TrCall \/ TrRet \/ TrInject \/ TrCrashObs \/ TrTxFail \/ TrStormEnd \/ TrPassive \/ TrDeadlock
 
 Spec == Init /\ [][Next]_vars
 
